@@ -717,3 +717,28 @@ func c15DenyExecPolicy(shape int) spec.Policy {
 	}
 	return spec.Policy{Arch: "x86_64", Default: actErrno, Groups: []spec.Group{rest}}
 }
+
+// ---- C14 through the command itself: "as the sandbox command does" ----
+
+// drawC14Sandbox: valid policy files only - YAML in generated spellings or the json.Marshal form, under names with and
+// without a telling extension, small and larger than 64 KiB - given to the sandbox command itself; the target observes
+// the decisions of the in-memory policy (checkC15's oracle for valid files), for operands of all 64 bits.
+func drawC14Sandbox(t *rapid.T) c15Case {
+	c := drawC15(t)
+	if c.Defect != "" {
+		// (some defects are properties of the run, not of the file: the unprivileged run without no_new_privs)
+		c.Defect, c.Pos, c.NNP, c.Uid, c.NNPFlag = "", 0, true, 0, ""
+	}
+	if c.FileName == "" && c.ExtraKeys == 0 && rapid.Bool().Draw(t, "c14FileName") {
+		c.FileName = []string{"policy.json", "POLICY.JSON", "policy.yaml", "policy", "policy.txt", "p.json.yml"}[rapid.IntRange(0, 5).Draw(t, "c14Name")]
+		c.JSONForm = rapid.IntRange(0, 2).Draw(t, "c14JSON") != 0
+		if c.JSONForm {
+			c.Bulk = 0
+		}
+	}
+	return c
+}
+
+func TestC14SandboxPath(t *testing.T) {
+	ev.Prop(t, "C14", "sandbox", drawC14Sandbox, checkC15)
+}
